@@ -98,7 +98,7 @@ contract('Collectors.AgentCollector.collect',
          requires=[env_ok, keys_disjoint],
          ensures={'C17': [collect_post]},
          modifies=['self.records', 'new:dict[str,any]'],
-         locals={'tmpDict': 'dict[str,any]'},
+         locals={'tmpDict': 'dict[str,any]'}, roles={'tmpDict': 'emptydict#0'},
          loops={0: dict(invariant=[(collect_inv, ['C17'])], index='p', modifies=['tmpDict'])},
          native=False, props=['C17'],
          assumes=['agentFunc / compositeFunc are pure functions of their argument (no effect on the model)'])
@@ -203,4 +203,22 @@ contract('Collectors.FileCollector.write_records',
          ensures={'C17': [write_records_post]},
          modifies=['file_log(self.filename)', 'new:obj:File'],
          loops={0: dict(invariant=[(write_inv, ['C17'])], index='i', modifies=['file_log(self.filename)'])},
+         native=False, props=['C17'])
+
+
+def agent_collector_init_post(self, model, agentFunc, compositeFunc, includeTimstep, id, priority, frequency, start,
+                              end, old):
+    return (same(self.agentFunc, agentFunc) and same(self.compositeFunc, compositeFunc)
+            and self.includeTimestep == includeTimstep and self.id == id and self.priority == priority
+            and self.frequency == frequency and self.start == start and self.end == end and len(self.records) == 0)
+
+
+contract('Collectors.AgentCollector.__init__',
+         params={'self': 'ref:AgentCollector', 'model': 'ref:Model', 'agentFunc': 'any', 'compositeFunc': 'any',
+                 'includeTimstep': 'bool', 'id': 'str', 'priority': 'int', 'frequency': 'int', 'start': 'int',
+                 'end': 'int'},
+         ensures={'C17': [agent_collector_init_post]},
+         modifies=['self.id', 'self.model', 'self.priority', 'self.frequency', 'self.start', 'self.end',
+                   'field:self.records', 'new:list[any]', 'self.agentFunc', 'self.compositeFunc',
+                   'self.includeTimestep'],
          native=False, props=['C17'])
